@@ -206,6 +206,7 @@ def reset():
     CALL_LOG.clear()
     _UF_CACHE.clear()
     _MEMO.clear()
+    _LSTSQ_Z.clear()
 
 
 def fresh_array(shape, name, *, mask=None, kind="kernel", **flags):
@@ -343,7 +344,29 @@ def k_lstsq_svd(ctx, prm, H, r):
         return [x, z]
 
     CALL_LOG.append({"name": "lstsq_svd", "operands": [H, r], "out_sids": [sids.reshape((n,) if vec else (n, c)), zsids], "native": native})
+    _LSTSQ_Z[(_operand_key(H), _operand_key(r))] = Z.reshape((m,) if vec else (m, c))
     return [X.reshape((n,) if vec else (n, c))]
+
+
+_LSTSQ_Z: dict = {}
+
+
+def k_lstsq_z(ctx, prm, H, r):
+    """Ghost: the witness z with x = H^T z of the lstsq_svd call on the same arguments."""
+    H = H if interp.is_obj(H) else interp.to_obj(H)
+    r = r if interp.is_obj(r) else interp.to_obj(r)
+    key = (_operand_key(H), _operand_key(r))
+    if key not in _LSTSQ_Z:
+        k_lstsq_svd(ctx, prm, H, r)
+    return [_LSTSQ_Z[key]]
+
+
+def lstsq_row_space_witness(H, r):
+    if not MODE.symbolic:
+        x = ORIG["lstsq_svd"](H, r)
+        return jnp.linalg.lstsq(H.T, x)[0]
+    m = H.shape[0]
+    return bind_opaque("lstsq_z", [H, r], [jax.ShapeDtypeStruct((m,) + tuple(jnp.shape(r)[1:]), jnp.result_type(float))], static=())[0]
 
 
 class _FakeEqn:
@@ -396,6 +419,7 @@ BASE_HANDLERS.update(
         "solve_tril": _tri_solve("solve_tril"),
         "solve_lu": k_solve_lu,
         "lstsq_svd": k_lstsq_svd,
+        "lstsq_z": k_lstsq_z,
         "hypot": k_hypot,
         "prng_key": k_prng_key,
         "split": k_split,
@@ -522,10 +546,17 @@ def install_kernels():
 
     if ORIG:
         return
-    f64 = jnp.result_type(float)
+    class _F64:  # resolved lazily: x64 may be enabled after the kernels are installed
+        def __eq__(self, o):
+            return False
 
     def sds(shape, dt=None):
-        return jax.ShapeDtypeStruct(tuple(shape), dt or f64)
+        return jax.ShapeDtypeStruct(tuple(shape), dt or jnp.result_type(float))
+
+    class _Lazy:
+        pass
+
+    f64 = None
 
     ORIG["qr_r"] = L.qr_r
     L.qr_r = _kernel_stub(
@@ -556,7 +587,7 @@ def install_kernels():
     NP.hypot = _kernel_stub(
         "hypot",
         NP.hypot,
-        lambda a, b: (list(jnp.broadcast_arrays(jnp.asarray(a, dtype=f64), jnp.asarray(b, dtype=f64))), ()),
+        lambda a, b: (list(jnp.broadcast_arrays(jnp.asarray(a, dtype=jnp.result_type(float)), jnp.asarray(b, dtype=jnp.result_type(float)))), ()),
         lambda a, b: [sds(jnp.broadcast_shapes(jnp.shape(a), jnp.shape(b)))],
     )
     # random
